@@ -499,7 +499,22 @@ class Prover:
             raise NeedSplit(('ge', t[1], ZERO))
         return cx.leaf(t)
 
-    def _prove_flat(self, kind, goal, atoms, _depth=0):
+    def _prove_flat(self, kind, goal, atoms, _depth=0, _force=None):
+        r = self._prove_flat1(kind, goal, atoms, _depth, _force)
+        if r[0] != 'PROVED' and _force is None and getattr(self, '_rejected', None):
+            # a bound on a symbol that also has a sign fact was not used (it does not imply the sign): using the bound and
+            # dropping the sign fact is also sound for a proof (fewer assumptions)
+            rej = set(self._rejected)
+            try:
+                r2 = self._prove_flat1(kind, goal, atoms, _depth, rej)
+                if r2[0] == 'PROVED':
+                    return r2
+            except Infeasible:
+                pass
+        return r
+
+    def _prove_flat1(self, kind, goal, atoms, _depth=0, _force=None):
+        self._rejected = []
         cx = Ctx(self)
         cx.atoms = {a for a in atoms if a[0] in ('ge', 'lt', 'gt', 'le')}
         rels = []
@@ -548,6 +563,13 @@ class Prover:
                 if ks:
                     sg = sign_of(cx.apply(new))
                     if not all(_implies(sg, k) for k in ks):
+                        if _force and X.name in _force:
+                            cx.signs.pop(X.name)
+                            cx.newsym = None
+                            cx.subs[X] = new
+                            done = True
+                            break
+                        self._rejected.append(X.name)
                         continue
                     # the re-parametrisation implies every sign fact known about X: it replaces them
                     cx.signs.pop(X.name)
